@@ -10,6 +10,7 @@ import (
 	"encoding/json"
 	"fmt"
 	"regexp"
+	"sort"
 	"strings"
 	"testing"
 
@@ -76,6 +77,9 @@ var catalogue = []construct{
 	{Src: "(1:3).A.map {|x| %H}"}, {Src: "[1,2].reduce {|a, x| %H}"}, {Src: "[[1, %H]].T"}, {Src: "{a: 1}.bear({b: %H})"}, {Src: "Int.new(%H)"}, {Src: "Arr.new([%H])"}, {Src: "Either.newVal(%H)"},
 	{Src: "1.try.{|x| x/0}.catch(ZeroDivisionErr) {|e| %H}"}, {Src: "[1, 2].any? {|x| %H}"}, {Src: "[1, 2].all? {|x| %H}"}, {Src: "{a: 1}.map {|k, v| %H}"},
 	{Src: "[1, 2].zip([%H])"}, {Src: "[1, 2].withI.map {|x, i| %H}"},
+	// duplicated names: the value that loses is evaluated all the same, so its raise counts
+	{Src: "f(%1, k: %2, k: %H)"}, {Src: "f(k: %1, k: %H, q: %2)"}, {Src: "o.m(1, k: %1, k: %H)"}, {Src: "{|y: 1, y: %H| y}"}, {Src: "<{|y: 1, y: %H| y}>"}, {Src: "f(k: %1, k: %H, **{k: 2})"},
+	{Src: "{a: %1, a: %H, b: %2}"}, {Src: "%{1: %1, 1: %H, 2: %2}"}, {Src: "{a: %1, **{a: %H}}"}, {Src: "%{[1]: %1, [1]: %H}"}, {Src: "[1]@{|x, k: 1| x}(k: %1, k: %H)"}, {Src: "[1]@m(k: %1, k: %H)"},
 }
 
 // outer constructs with one nesting position %X and their own markers %4..%6 (evaluated after %X unless noted)
@@ -96,8 +100,10 @@ type Case struct {
 	Handler   string `json:"handler"`
 	Kind      string `json:"kind"`
 	Src       string `json:"src,omitempty"`
-	Got       string `json:"got,omitempty"`
-	Want      string `json:"want,omitempty"`
+	// Call (bomb battery): a call of a built-in or native property whose receiver, elements or arguments raise when used
+	Call string `json:"call,omitempty"`
+	Got  string `json:"got,omitempty"`
+	Want string `json:"want,omitempty"`
 }
 
 func prelude(kind string) string {
@@ -188,7 +194,126 @@ func containsErr(o object.PanObject, depth int) bool {
 }
 
 // judge returns (sig, detail, reached): reached=false when the hole was not evaluated (nothing to judge).
+// bombPrelude: values whose operators, call, iteration and indexing raise after printing the marker. The conversion
+// hooks B, S and == are left alone (outside the property).
+const bombPrelude = `boom := {|| "BOOM".p; raise ValueErr.new("inj")}
+ops := {'<=>: m{|o| boom()}, '+: m{|o| boom()}, '-: m{|o| boom()}, '*: m{|o| boom()}, '/: m{|o| boom()}, '<: m{|o| boom()}, '>: m{|o| boom()}, '<=: m{|o| boom()}, '>=: m{|o| boom()}, '%: m{|o| boom()}, '//: m{|o| boom()}, '**: m{|o| boom()}}
+BI := Int.bear(ops)
+b1 := BI.new(2)
+b2 := {call: m{boom()}, _iter: m{boom()}, at: m{|i| boom()}, **ops}
+BS := Str.bear(ops)
+b3 := BS.new("q")
+bf := {|a, b, c| boom()}
+`
+
+var bombRecvs = []string{"[1, b1, 3]", "[b1, 1]", "[3, 1, b2]", "[b2]", "[3, b3]", "{a: 1, b: b1}", "%{1: b1, 2: 3}", "%{b1: 1}", "(1:b1)", "(b1:5)", "b1", "b2", "b3", "[1, 2, 3]", `"abc"`, "{a: 1, b: 2}", "(1:4)", "%{1: 2}", "5", "2.5",
+	"<{|i| yield i if i < 3; recur(i + 1)}>.new(0)", "<{|i| yield boom() if i < 3; recur(i + 1)}>.new(0)", "nil", "{|x| x}", "bf"}
+var bombArgs = []string{"", "bf", "b1", "b2", "1, bf", "1", "[b1]", "b1, b1", "bf, 1", "b3", "[1, b1]", "{a: b1}"}
+
+// handlersByDesign: properties documented to capture a failure (built on try / Either); the error reaching them is the
+// statement's "nearest handler".
+var handlersByDesign = map[string]bool{"first": true, "try": true}
+
+var ioProps = map[string]bool{"p": true, "puts": true, "print": true, "exit": true, "serve": true, "read": true, "readline": true, "readLines": true, "import": true, "invite!": true, "eval": true, "evalEnv": true, "write": true}
+
+func propsOf(o object.PanObject) []string {
+	names := map[string]bool{}
+	for x := o; x != nil; x = x.Proto() {
+		if po, ok := x.(*object.PanObj); ok {
+			for _, p := range *po.Pairs {
+				if s, ok := p.Key.(*object.PanStr); ok && !strings.HasPrefix(s.Value, "\\") && !ioProps[s.Value] && !handlersByDesign[s.Value] {
+					names[s.Value] = true
+				}
+			}
+		}
+	}
+	out := []string{}
+	for k := range names {
+		out = append(out, k)
+	}
+	sort.Strings(out)
+	return out
+}
+
+// judgeCall: if a bomb went off during the call, the call must end with exactly that error and print nothing more.
+func judgeCall(c *Case) (sig, detail string, reached bool) {
+	in := interp.Shared()
+	env := object.NewEnclosedEnv(in.Global)
+	if po := in.Run(bombPrelude, interp.Opts{Env: env}); po.Kind != interp.Value {
+		return "harness:bomb-prelude", po.Show(), true
+	}
+	o := in.Run(c.Call, interp.Opts{Env: env})
+	out := strings.ReplaceAll(o.Stdout, "\"", "")
+	i := strings.Index(out, "BOOM\n")
+	if i < 0 || o.Kind == interp.Fuel {
+		return "", "", false
+	}
+	c.Got, c.Want = o.Show(), "error ValueErr: inj"
+	prop := c.Call
+	if k := strings.Index(prop, ")."); k >= 0 {
+		prop = prop[k+2:]
+	}
+	if k := strings.Index(prop, "("); k >= 0 {
+		prop = prop[:k]
+	}
+	if o.Kind == interp.HostPanic {
+		return "", "", true // judged by C01
+	}
+	if rest := strings.TrimSpace(out[i+5:]); rest != "" && !strings.HasPrefix(rest, "BOOM") {
+		return "builtin-continued-after-raise:" + prop, fmt.Sprintf("%s: output after the raise: %q", c.Call, rest), true
+	}
+	if o.Kind != interp.PanErr || o.ErrKind != "ValueErr" || o.ErrMsg != "inj" {
+		return "builtin-dropped-the-error:" + prop, fmt.Sprintf("%s: an operand raised ValueErr: inj during the call (marker printed), the call gave %s", c.Call, o.Show()), true
+	}
+	return "", "", true
+}
+
+func TestBuiltinsPropagate(t *testing.T) {
+	vt.SkipIfReplay(t)
+	in := interp.Shared()
+	k := 0
+	for _, r := range bombRecvs {
+		env := object.NewEnclosedEnv(in.Global)
+		in.Run(bombPrelude, interp.Opts{Env: env})
+		ro := in.Run(r, interp.Opts{Env: env})
+		if ro.Kind != interp.Value {
+			vt.Note("bomb receiver does not evaluate: "+r, ro.Show())
+			continue
+		}
+		for _, p := range propsOf(ro.Obj) {
+			for _, a := range bombArgs {
+				k++
+				if !vt.Mine(k) {
+					continue
+				}
+				forms := []string{"(%s).%s(%s)"}
+				if vt.Thorough() || k%5 == int(vt.Cfg.Seed)%5 {
+					forms = append(forms, "([%[1]s, %[1]s]@%[2]s(%[3]s))", "(%s)&.%s(%s)")
+				}
+				for _, f := range forms {
+					c := Case{Call: fmt.Sprintf(f, r, p, a), Handler: "none", Kind: "ValueErr"}
+					sig, detail, reached := judgeCall(&c)
+					if !reached {
+						vt.Discard("no operand raised during this built-in call")
+						continue
+					}
+					vt.Eval()
+					vt.Class("built-in or native property called with raising operands")
+					vt.NonTrivial(c.Call, func() any { return c.Call + " => " + c.Got })
+					if sig != "" {
+						vt.Record(sig, detail, c)
+					}
+				}
+			}
+		}
+	}
+	vt.Exhaustive(fmt.Sprintf("every property reachable from %d receivers x %d argument lists with raising operands", len(bombRecvs), len(bombArgs)))
+}
+
 func judge(c *Case) (sig, detail string, reached bool) {
+	if c.Call != "" {
+		return judgeCall(c)
+	}
 	src, outside, endsInError := program(*c)
 	c.Src = src
 	in := interp.Shared()
